@@ -25,14 +25,25 @@ def _prot_constructions(b):
     out = []
     for bb, t in b.calls(include_cleanup=False):
         if U.callee_name(t) == 'new' and 'HybridProtection' in t['callee'].get('path', ''):
-            d = U.def_rvalue(b, t['args'][1])
+            pi, di = new_arg_positions(t)
+            d = U.def_rvalue(b, t['args'][di])
             st = None
             dop = None
             if d and d[0] == 'rv' and d[3]['k'] == 'aggregate' and d[3].get('adt') == 'core::option::Option':
                 st = d[3]['variant']
                 dop = d[3]['fields'][0] if d[3]['fields'] else None
-            out.append((bb, t['args'][0], st, dop))
+            out.append((bb, t['args'][pi], st, dop))
     return out
+
+
+def new_arg_positions(t):
+    """(index of the pointer argument, index of the debt argument) of a HybridProtection::new call, by type"""
+    tys = t.get('arg_tys') or []
+    di = [i for i, ty in enumerate(tys) if 'Option<' in ty and 'Debt' in ty]
+    pi = [i for i, ty in enumerate(tys) if ty.strip().startswith('*')]
+    if len(di) == 1 and len(pi) == 1:
+        return pi[0], di[0]
+    return 0, 1
 
 
 def _switch_guard(b, bb):
